@@ -13,8 +13,11 @@ import (
 	"math"
 	"os"
 	"sort"
+	"strings"
+	"time"
 	"unsafe"
 
+	zmq4 "github.com/pebbe/zmq4"
 	"github.com/usnistgov/dastard"
 	"verifharness/lib"
 )
@@ -286,35 +289,260 @@ func gen(seed uint64, tier string) []interface{} {
 		out = append(out, c)
 	}
 	for i := 0; i < n; i++ {
-		c := genCase(r.Fork(), tier)
+		rr := r.Fork()
+		c := genCase(rr, tier)
+		if tier == "thorough" && i%10 == 0 && c.Chan >= 0 && c.Chan < 65536 {
+			c.E2E = true // through the real PUB socket; every other one on a channel with a prefix subscription
+			if i%20 == 0 {
+				c.Chan = subChans[rr.Intn(len(subChans))]
+			}
+		}
 		c.ID = id
 		id++
 		out = append(out, c)
 	}
+	if tier == "thorough" {
+		// the channel/length grid and the long records of the corpus once more, end to end
+		for _, c := range corpus(tier) {
+			if c.Chan == 3 && len(c.Ramp) == 0 {
+				continue
+			}
+			if c.Chan < 0 || c.Chan >= 65536 {
+				continue
+			}
+			c.E2E = true
+			c.ID = id
+			id++
+			out = append(out, c)
+		}
+	}
 	return out
+}
+
+// ---------- end-to-end path (thorough tier): the real startSocket publisher and SUB sockets ----------
+//
+// One session per harness process: two publishers started through startSocket (messageRecords and
+// messageSummaries, as configurePubRecordsSocket / configurePubSummariesSocket do) on two free TCP ports, and
+// for each an unfiltered SUB socket and a SUB socket subscribed to the 2-byte prefixes of subChans only.
+// Determinism: PUB/SUB drops messages until the subscription has reached the publisher, so numbered probe
+// records are sent until every SUB socket has seen one, then every socket is drained up to the last probe;
+// from then on the harness works in lock step (send one record, receive it on every socket that must see it),
+// far below the high-water marks, over one ordered TCP connection per socket.  Anything that goes wrong with
+// the transport (no free port, priming or a receive timing out) makes the case fall back to the direct call
+// and is visible as a tag; it is never reported as a violation of the layout property.
+
+var subChans = []int64{0, 1, 255, 256, 4660, 65535}
+
+type session struct {
+	pub  [2]*dastard.VerifPub // 0: records, 1: summaries
+	all  [2]*zmq4.Socket
+	filt [2]*zmq4.Socket
+	ok   bool
+}
+
+var sess *session
+var sessTried bool
+
+func prefixOf(ch int64) string { return string([]byte{byte(ch & 0xff), byte(ch >> 8)}) }
+
+func newSub(port int, prefixes []string) (*zmq4.Socket, error) {
+	sock, err := zmq4.NewSocket(zmq4.SUB)
+	if err != nil {
+		return nil, err
+	}
+	sock.SetLinger(0)
+	sock.SetRcvhwm(100000)
+	sock.SetRcvtimeo(20 * time.Millisecond)
+	for _, p := range prefixes {
+		if err := sock.SetSubscribe(p); err != nil {
+			return nil, err
+		}
+	}
+	if err := sock.Connect(fmt.Sprintf("tcp://127.0.0.1:%d", port)); err != nil {
+		return nil, err
+	}
+	return sock, nil
+}
+
+func sameFrames(a, b [][]byte) bool {
+	if len(a) != len(b) {
+		return false
+	}
+	for i := range a {
+		if string(a[i]) != string(b[i]) {
+			return false
+		}
+	}
+	return true
+}
+
+func probe(k int) dastard.VerifRecord {
+	return dastard.VerifRecord{Chan: 4660, Frame: int64(-1000 - k), TimeNs: 77, Pre: 0, Data: []uint16{uint16(k)}}
+}
+
+func direct(v dastard.VerifRecord, which int) [][]byte {
+	if which == 0 {
+		return copyFrames(dastard.VerifMessageRecord(v))
+	}
+	return copyFrames(dastard.VerifMessageSummary(v))
+}
+
+func dbg(format string, a ...interface{}) {
+	if os.Getenv("VERIF_C14_DEBUG") != "" {
+		fmt.Fprintf(os.Stderr, "c14 e2e: "+format+"\n", a...)
+	}
+}
+
+func getSession() *session {
+	if sessTried {
+		return sess
+	}
+	sessTried = true
+	s := &session{}
+	port := 21000 + (os.Getpid()*13)%20000
+	var prefixes []string
+	for _, ch := range subChans {
+		prefixes = append(prefixes, prefixOf(ch))
+	}
+	for w := 0; w < 2; w++ {
+		var err error
+		for tries := 0; tries < 60; tries++ {
+			port++
+			s.pub[w], err = dastard.VerifStartPub(port, w == 1)
+			if err == nil {
+				break
+			}
+		}
+		if err != nil {
+			dbg("no port: %v", err)
+			return nil
+		}
+		if s.all[w], err = newSub(port, []string{""}); err != nil {
+			dbg("sub: %v", err)
+			return nil
+		}
+		if s.filt[w], err = newSub(port, prefixes); err != nil {
+			dbg("sub: %v", err)
+			return nil
+		}
+		dbg("publisher %d on port %d", w, port)
+	}
+	// priming: numbered probes until every socket has seen one
+	socks := []*zmq4.Socket{s.all[0], s.filt[0], s.all[1], s.filt[1]}
+	which := []int{0, 0, 1, 1}
+	seen := make([]bool, 4)
+	last := -1
+	for k := 0; k < 400; k++ {
+		s.pub[0].Send(probe(k))
+		s.pub[1].Send(probe(k))
+		last = k
+		allSeen := true
+		for i, so := range socks {
+			if !seen[i] {
+				if m, err := so.RecvMessageBytes(0); err == nil && len(m) > 0 {
+					seen[i] = true
+				}
+			}
+			allSeen = allSeen && seen[i]
+		}
+		if allSeen {
+			break
+		}
+	}
+	dbg("priming: %d probes, seen %v", last+1, seen)
+	for i := range seen {
+		if !seen[i] {
+			return nil
+		}
+	}
+	// one more probe as a fence (every socket is subscribed now), then drain every socket up to it
+	last++
+	s.pub[0].Send(probe(last))
+	s.pub[1].Send(probe(last))
+	for i, so := range socks {
+		want := direct(probe(last), which[i])
+		so.SetRcvtimeo(5 * time.Second)
+		for n := 0; ; n++ {
+			m, err := so.RecvMessageBytes(0)
+			if err != nil || n > 1000 {
+				dbg("drain of socket %d failed after %d messages: %v", i, n, err)
+				return nil
+			}
+			if sameFrames(m, want) {
+				break
+			}
+		}
+	}
+	s.ok = true
+	sess = s
+	return s
+}
+
+// roundtrip publishes v on both sockets and returns the frames received (through the prefix-filtered
+// subscribers when v's channel is one of subChans, else through the unfiltered ones).
+func (s *session) roundtrip(v dastard.VerifRecord) (msgs [2][][]byte, filtered bool, ok bool) {
+	for _, ch := range subChans {
+		if int64(v.Chan) == ch {
+			filtered = true
+		}
+	}
+	for w := 0; w < 2; w++ {
+		s.pub[w].Send(v)
+		m, err := s.all[w].RecvMessageBytes(0)
+		if err != nil {
+			s.ok = false
+			return msgs, filtered, false
+		}
+		if filtered {
+			m, err = s.filt[w].RecvMessageBytes(0)
+			if err != nil {
+				s.ok = false
+				return msgs, filtered, false
+			}
+		}
+		msgs[w] = m
+	}
+	return msgs, filtered, true
 }
 
 // ---------- running one case ----------
 
-// frameList renders frames as a Coq list of byte lists. Coq's parser overflows its stack on list literals of
-// ~100 k elements, so a long frame is written as (cat [chunk; chunk; ...]) with cat = concat (Run.v).
+// frameList renders frames as a Coq list of byte lists.  Coq spends ~40 us per decimal digit on numerals and its
+// parser overflows the stack on list literals of ~100 k elements, so a frame longer than 1024 bytes is written as
+// (cat [chunk; chunk; ...]) (cat = concat, Run.v) with every byte as one of the 256 constants b00 .. bff of Run.v
+// (b2a = 42): same bytes, 2.3 times faster to read.
 func frameList(fr [][]byte) string {
 	const chunk = 2048
+	const hexdigits = "0123456789abcdef"
 	items := make([]string, len(fr))
 	for i, f := range fr {
-		if len(f) <= chunk {
+		if len(f) <= 1024 {
 			items[i] = lib.ZListBytes(f)
 			continue
 		}
-		var parts []string
+		var sb strings.Builder
+		sb.WriteString("(cat [")
 		for a := 0; a < len(f); a += chunk {
 			b := a + chunk
 			if b > len(f) {
 				b = len(f)
 			}
-			parts = append(parts, lib.ZListBytes(f[a:b]))
+			if a > 0 {
+				sb.WriteString(";\n ")
+			}
+			sb.WriteByte('[')
+			for k := a; k < b; k++ {
+				if k > a {
+					sb.WriteByte(';')
+				}
+				sb.WriteByte('b')
+				sb.WriteByte(hexdigits[f[k]>>4])
+				sb.WriteByte(hexdigits[f[k]&15])
+			}
+			sb.WriteByte(']')
 		}
-		items[i] = "(cat " + lib.List(parts) + ")"
+		sb.WriteString("])")
+		items[i] = sb.String()
 	}
 	return lib.List(items)
 }
@@ -330,8 +558,8 @@ func copyFrames(fr [][]byte) [][]byte {
 type obsv struct {
 	RecFrames []int  `json:"record_frame_lengths"`
 	SumFrames []int  `json:"summary_frame_lengths"`
-	RecHeader []byte `json:"record_header,omitempty"`
-	SumHeader []byte `json:"summary_header,omitempty"`
+	RecHeader string `json:"record_header_hex,omitempty"`
+	SumHeader string `json:"summary_header_hex,omitempty"`
 	Panic     string `json:"panic,omitempty"`
 }
 
@@ -415,6 +643,20 @@ func runCase(c Case) lib.Result {
 		recmsg = copyFrames(dastard.VerifMessageRecord(v))
 		summsg = copyFrames(dastard.VerifMessageSummary(v))
 	}()
+	e2eTag := ""
+	if c.E2E && ob.Panic == "" {
+		if s := getSession(); s == nil || !s.ok {
+			e2eTag = "e2e-unavailable(direct call used)"
+		} else if msgs, filtered, ok := s.roundtrip(v); !ok {
+			e2eTag = "e2e-receive-timeout(direct call used)"
+		} else {
+			recmsg, summsg = msgs[0], msgs[1]
+			e2eTag = "e2e-received-by-unfiltered-SUB"
+			if filtered {
+				e2eTag = "e2e-received-by-prefix-subscribed-SUB"
+			}
+		}
+	}
 	for _, f := range recmsg {
 		ob.RecFrames = append(ob.RecFrames, len(f))
 	}
@@ -422,10 +664,10 @@ func runCase(c Case) lib.Result {
 		ob.SumFrames = append(ob.SumFrames, len(f))
 	}
 	if len(recmsg) > 0 {
-		ob.RecHeader = recmsg[0]
+		ob.RecHeader = fmt.Sprintf("%x", recmsg[0])
 	}
 	if len(summsg) > 0 {
-		ob.SumHeader = summsg[0]
+		ob.SumHeader = fmt.Sprintf("%x", summsg[0])
 	}
 
 	var f32 [5]uint32
@@ -515,6 +757,9 @@ func runCase(c Case) lib.Result {
 	}
 	if ob.Panic != "" {
 		tags["panic"] = true
+	}
+	if e2eTag != "" {
+		tags[e2eTag] = true
 	}
 	res.NonTrivial = inDomain && len(data) > 0 && len(c.Coefs) > 0
 	for t := range tags {
